@@ -5,6 +5,10 @@
    The live-block delta (allocwrap.c) is taken after the returned object and the exception object are gone.
    Crystal queries that the header offers twice — as a method of Crystal::Struct and as a free function of namespace
    Crystal — are made through BOTH routes on every line:  <answer through the method> || <answer through the free function>.
+   Sessions on process-wide collection state (the built-in crystal collection): besides the two wrapper routes StructAdd / StructAddF
+   the collection is changed through the C API called directly from this process — CAdd (Crystal_AddCrystal(c, NULL)), CReadFile
+   (Crystal_ReadFile(file, NULL)) — and CList answers the list query with the C function called directly here; the wrappers' own
+   queries (Crystal_GetCrystalsList, Crystal_GetCrystal, …) are issued before and after every one of them.
    Built by ./check with clang++-14 -std=gnu++17, ASan+UBSan, against the library objects of the working tree. */
 #include "config.h"
 #include <cstdio>
@@ -16,6 +20,7 @@
 #include <memory>
 #include <new>
 #include <typeinfo>
+#include <unistd.h>
 #include "xraylib++.h"
 
 extern "C" { long xv_live(void); void xv_fail_after(long n); }
@@ -134,6 +139,29 @@ static int dispatch_hand(char **tok, int nt) {
       std::unique_ptr<Struct> a(new Struct(xrlpp::Crystal::GetCrystal(s)));
       std::unique_ptr<Struct> k(new Struct(nn, a->a, a->b, a->c, a->alpha, a->beta, a->gamma, a->volume, a->atom)); a.reset();
       pr_i(viaMethod ? k->AddCrystal() : xrlpp::Crystal::AddCrystal(*k))); return 1; }
+  /* ---- mutations of the built-in collection that do NOT pass through a wrapper, and the C answer to the list query in this process.
+     The C driver (harness/xdrv.c) is sent the line of the same effect on its own collection: CAdd, CReadFile -> StructAdd; CList ->
+     Crystal_GetCrystalsList (props/c18.py: c_line).  A C error is turned into the exception of the protocol by _process_error. ---- */
+  if (IS("CAdd", 2)) { std::string s = ps(tok[1]); std::string nn = ps(tok[2]); CALL(
+      xrl_error *er = nullptr; Crystal_Struct *c = ::Crystal_GetCrystal(s.c_str(), nullptr, &er); xrlpp::_process_error(er);
+      Crystal_Struct *k = (Crystal_Struct *)xrl_malloc(sizeof(Crystal_Struct)); *k = *c; k->name = xrl_strdup(nn.c_str());
+      k->atom = (Crystal_Atom *)xrl_malloc(sizeof(Crystal_Atom) * c->n_atom); for (int i = 0; i < c->n_atom; i++) k->atom[i] = c->atom[i];
+      ::Crystal_Free(c); int r = ::Crystal_AddCrystal(k, nullptr, &er); ::Crystal_Free(k); xrlpp::_process_error(er); pr_i(r)); return 1; }
+  if (IS("CReadFile", 2)) { std::string s = ps(tok[1]); std::string nn = ps(tok[2]); CALL(
+      /* a crystal file with ONE entry: the built-in crystal `s` under the name `nn` (17 significant digits: the text converts back exactly) */
+      xrl_error *er = nullptr; Crystal_Struct *c = ::Crystal_GetCrystal(s.c_str(), nullptr, &er); xrlpp::_process_error(er);
+      const char *td = getenv("TMPDIR"); std::string path = std::string(td && *td ? td : "/tmp") + "/c18drv_XXXXXX";
+      int fd = mkstemp(&path[0]); FILE *f = fd >= 0 ? fdopen(fd, "w") : nullptr;
+      if (f) {
+        fprintf(f, "#S 1 %s\n#UCELL %.17g %.17g %.17g %.17g %.17g %.17g\n#L  AtomicNumber  Fraction  X  Y  Z\n", nn.c_str(), c->a, c->b, c->c, c->alpha, c->beta, c->gamma);
+        for (int i = 0; i < c->n_atom; i++) fprintf(f, "%d %.17g %.17g %.17g %.17g\n", c->atom[i].Zatom, c->atom[i].fraction, c->atom[i].x, c->atom[i].y, c->atom[i].z);
+        fclose(f);
+      }
+      ::Crystal_Free(c);
+      int r = ::Crystal_ReadFile(path.c_str(), nullptr, &er); unlink(path.c_str()); xrlpp::_process_error(er); pr_i(r)); return 1; }
+  if (IS("CList", 0)) { CALL(
+      xrl_error *er = nullptr; int n = 0; char **l = ::Crystal_GetCrystalsList(nullptr, &n, &er); xrlpp::_process_error(er);
+      pr_i(n); for (int i = 0; i < n; i++) { pr_s(l[i]); ::xrlFree(l[i]); } ::xrlFree(l)); return 1; }
   if (IS("ProcessError", 2)) { int code = atoi(tok[1]); std::string m = ps(tok[2]); CALL(
       xrl_error *er = nullptr;
       if (code >= 0) { er = (xrl_error *)xrl_malloc(sizeof(xrl_error)); er->code = (xrl_error_code)code; er->message = xrl_strdup(m.c_str()); }
